@@ -153,6 +153,11 @@ pub enum Wrap {
     Opt,
     /// `[<P>,"x"]` through a tuple.
     Pair,
+    /// `<P>` through `#[serde(untagged)] enum { Purl(P), Number(u32) }`: deserialisation goes through
+    /// serde's buffered `Content` and its `ContentRefDeserializer`.
+    Untagged,
+    /// `{"t":"A","purl":<P>}` through `#[serde(tag = "t")] enum { A { purl: P } }`: likewise buffered.
+    Tagged,
 }
 
 impl Wrap {
@@ -164,6 +169,8 @@ impl Wrap {
             Wrap::MapKey => 3,
             Wrap::Opt => 4,
             Wrap::Pair => 5,
+            Wrap::Untagged => 6,
+            Wrap::Tagged => 7,
         }
     }
 }
@@ -173,6 +180,32 @@ struct Rec<P> {
     id: u32,
     purl: P,
     tags: Vec<String>,
+}
+
+#[derive(Serialize, Deserialize)]
+#[serde(untagged)]
+enum Untagged<P> {
+    Purl(P),
+    #[allow(dead_code)]
+    Number(u32),
+}
+
+#[derive(Serialize)]
+#[serde(untagged)]
+enum UntaggedRef<'a, P> {
+    Purl(&'a P),
+}
+
+#[derive(Serialize, Deserialize)]
+#[serde(tag = "t")]
+enum Tagged<P> {
+    A { purl: P },
+}
+
+#[derive(Serialize)]
+#[serde(tag = "t")]
+enum TaggedRef<'a, P> {
+    A { purl: &'a P },
 }
 
 #[derive(Serialize)]
@@ -193,6 +226,8 @@ impl<P: Serialize, const K: u8> Serialize for WS<'_, P, K> {
             3 => s.collect_map(std::iter::once((self.0, 1u32))),
             4 => Some(self.0).serialize(s),
             5 => (self.0, "x").serialize(s),
+            6 => UntaggedRef::Purl(self.0).serialize(s),
+            7 => TaggedRef::A { purl: self.0 }.serialize(s),
             _ => self.0.serialize(s),
         }
     }
@@ -223,6 +258,11 @@ impl<'de, P: Deserialize<'de> + Ord, const K: u8> Deserialize<'de> for W<P, K> {
             },
             4 => Option::<P>::deserialize(d)?.map(W).ok_or_else(|| D::Error::custom("harness: null")),
             5 => <(P, String)>::deserialize(d).map(|(p, _)| W(p)),
+            6 => match Untagged::<P>::deserialize(d)? {
+                Untagged::Purl(p) => Ok(W(p)),
+                Untagged::Number(_) => Err(D::Error::custom("harness: the other variant matched")),
+            },
+            7 => Tagged::<P>::deserialize(d).map(|Tagged::A { purl }| W(purl)),
             _ => P::deserialize(d).map(W),
         }
     }
@@ -795,12 +835,15 @@ where
                 Err(_) => false,
             }),
             SerKind::ToValue => guarded(|| match serde_json::to_value(&WS::<_, K>(p)) {
-                Ok(serde_json::Value::String(s)) => {
-                    writer.push_raw(json_minimal(&s).0.as_bytes());
-                    true
-                },
-                Ok(other) => {
-                    writer.push_raw(other.to_string().as_bytes());
+                Ok(value) => {
+                    // An in-memory tree has no byte form of its own (object keys are sorted): compare it
+                    // with the tree of the same wrapper around the canonical String.
+                    let reference = serde_json::to_value(&WS::<String, K>(&canon.to_owned())).ok();
+                    if Some(&value) == reference.as_ref() {
+                        writer.push_raw(expected);
+                    } else {
+                        writer.push_raw(value.to_string().as_bytes());
+                    }
                     true
                 },
                 Err(_) => false,
@@ -1257,7 +1300,7 @@ impl Sim for C16 {
             Vec::new()
         };
         let f_faults = (0..n_faults(&mut rng)).map(|_| (pos(&mut rng), *rng.pick(&[FmtFault::Once, FmtFault::Once, FmtFault::Sticky]))).collect();
-        let wrap = *rng.pick(&[Wrap::Bare, Wrap::Bare, Wrap::Bare, Wrap::Bare, Wrap::Struct, Wrap::Struct, Wrap::Seq, Wrap::MapKey, Wrap::MapKey, Wrap::Opt, Wrap::Pair]);
+        let wrap = *rng.pick(&[Wrap::Bare, Wrap::Bare, Wrap::Bare, Wrap::Bare, Wrap::Struct, Wrap::Struct, Wrap::Seq, Wrap::MapKey, Wrap::MapKey, Wrap::Opt, Wrap::Pair, Wrap::Untagged, Wrap::Tagged]);
         Scenario { ty, wrap, docs, sep, ser, de, w_chunk: chunk(&mut rng), w_faults, r_chunk: chunk(&mut rng), r_faults, f_faults }
     }
 
@@ -1277,6 +1320,8 @@ impl Sim for C16 {
             Wrap::MapKey => "wrap.map_key",
             Wrap::Opt => "wrap.option",
             Wrap::Pair => "wrap.tuple_element",
+            Wrap::Untagged => "wrap.untagged_enum",
+            Wrap::Tagged => "wrap.internally_tagged_enum",
         });
         macro_rules! go {
             ($t:ty) => {
@@ -1286,6 +1331,8 @@ impl Sim for C16 {
                     3 => execute_typed::<$t, 3>(sc, log, stats),
                     4 => execute_typed::<$t, 4>(sc, log, stats),
                     5 => execute_typed::<$t, 5>(sc, log, stats),
+                    6 => execute_typed::<$t, 6>(sc, log, stats),
+                    7 => execute_typed::<$t, 7>(sc, log, stats),
                     _ => execute_typed::<$t, 0>(sc, log, stats),
                 }
             };
